@@ -110,7 +110,51 @@ def lin_diff(actual, expected):
     if (ma & me or () in odd) and odd and all(all(a in common_atoms for a, _ in m) for m in odd):
         m = sorted(odd, key=T._mono_repr)[0]
         return ("coeff", T._mono_repr(m), str(actual.terms.get(m, 0)), str(expected.terms.get(m, 0)))
+    nd = nested_coeff_diff(actual, expected)
+    if nd is not None:
+        return ("coeff", nd[0], nd[1], nd[2])
     return ("unknown", "normal forms differ structurally: %r  vs  %r" % (actual, expected))
+
+
+# strictly increasing in their first argument, element by element (sum: of the summands)
+_INCREASING = {"softplus", "exp", "sigmoid", "sum", "tanh", "logsumexp", "unsq", "sq"}
+
+
+def _free_positive(mono):
+    """A monomial that can be made positive in every component by choosing its free symbols: x, or matmul / t of free symbols."""
+    def freeatom(a):
+        if isinstance(a, T.Sym):
+            return not a.name.startswith("lit:")
+        if isinstance(a, T.App) and a.op in ("matmul", "t", "unsq"):
+            return all(not hasattr(x, "all_atoms") or (x.single_atom() is not None and freeatom(x.single_atom())) for x in a.args)
+        return False
+
+    return bool(mono) and all(e == 1 and freeatom(a) for a, e in mono)
+
+
+def nested_coeff_diff(actual, expected, depth=0):
+    """Two normal forms that are the same expression except for ONE coefficient somewhere inside arguments of strictly increasing
+    functions (softplus(A + b) vs softplus(A + b/2)) are different functions: choose the free symbol of the differing monomial
+    positive in every component, then every enclosing function is strictly larger on one side.  Returns (where, got, want) or None."""
+    if depth > 6 or not hasattr(actual, "terms") or not hasattr(expected, "terms"):
+        return None
+    ma, me = set(actual.terms), set(expected.terms)
+    if ma == me:
+        diff = [m for m in ma if actual.terms[m] != expected.terms[m]]
+        if len(diff) == 1 and _free_positive(diff[0]):
+            m = diff[0]
+            return (T._mono_repr(m), str(actual.terms[m]), str(expected.terms[m]))
+        return None
+    only_a, only_e = ma - me, me - ma
+    if len(only_a) == 1 and len(only_e) == 1 and all(actual.terms[m] == expected.terms[m] for m in ma & me):
+        m1, m2 = next(iter(only_a)), next(iter(only_e))
+        if len(m1) == 1 and len(m2) == 1 and m1[0][1] == 1 and m2[0][1] == 1 and actual.terms[m1] == expected.terms[m2]:
+            a1, a2 = m1[0][0], m2[0][0]
+            if isinstance(a1, T.App) and isinstance(a2, T.App) and a1.op == a2.op and a1.op in _INCREASING and len(a1.args) == len(a2.args) and a1.args[1:] == a2.args[1:]:
+                r = nested_coeff_diff(a1.args[0], a2.args[0], depth + 1)
+                if r is not None:
+                    return ("%s inside %s(...)" % (r[0], a1.op), r[1], r[2])
+    return None
 
 
 def diff_verdict(d):
